@@ -181,7 +181,18 @@ def Str.advance : List Nat → Nat → Nat → Option (Nat × List Nat)
   | [], _ + 1, _ => none
   | x :: xs, k + 1, _ => Str.advance xs k x
 
-/-- `StringLines::slice` (src/value/string.rs), hand-modelled: its two `for`
+/-- the loop `let mut cur = init; for _ in a..b { let idx = it.next()?; cur = idx; }` as the translator
+    reads it: `b - a` steps (none when `a ≥ b`, as a Rust range), `None` when the iterator runs dry -/
+def Str.advanceR {ι κ} [ToOff ι] [ToOff κ] (it : List Nat) (a : ι) (b : κ) (init : Nat) : Option (Nat × List Nat) :=
+  Str.advance it (ToOff.toOff b - ToOff.toOff a) init
+/-- `s.match_indices('\n').map(|(byte, _)| byte + 1)`: the offsets just after each newline -/
+def Str.after_newlines (s : Str) : List Nat := Str.afterNewlinesFrom 0 s.chars
+/-- `iter.chain(end)` with `end : Option<usize>` -/
+def Str.chain_opt (it : List Nat) (e : Option Nat) : List Nat := it ++ e.toList
+
+/-- (Reference only since round 4: `Generated/C10Builtins.StringLines_slice` is transliterated from the
+    source and `Props/C10B.lines_slice_inner_no_panic` is proved over it; nothing uses this model.)
+    `StringLines::slice` (src/value/string.rs), hand-modelled: its two `for`
     loops advance one iterator over the offsets just after each newline
     (chained with the string's length when it does not end in a newline).
     `byte + 1` cannot overflow (bounded by the string's length). -/
@@ -304,6 +315,21 @@ def strip_prefix (s pat : Str) : Option Str :=
 def strip_suffix (s pat : Str) : Option Str :=
   if ends_with s pat then some ⟨s.chars.take (s.chars.length - pat.chars.length)⟩ else none
 def append (a b : Str) : Str := ⟨a.chars ++ b.chars⟩
+instance : REq Str := ⟨fun a b => .ok (decide (a.chars = b.chars))⟩
+/-- `s.is_empty()` -/
+def is_empty (s : Str) : Bool := s.chars.isEmpty
+/-- `s.is_char_boundary(i)`: `i` is 0, the length, or the offset of a character -/
+def is_char_boundary {ι} [ToOff ι] (s : Str) (i : ι) : Bool := (dropBytes s.chars (ToOff.toOff i)).isSome
+/-- `s.split_at(i)`: panics where `i` is past the end or inside a character -/
+def split_at {ι} [ToOff ι] (s : Str) (i : ι) : Res (Str × Str) :=
+  match takeBytes s.chars (ToOff.toOff i), dropBytes s.chars (ToOff.toOff i) with
+  | some a, some b => .ok (⟨a⟩, ⟨b⟩)
+  | _, _ => .panic
+/-- `s.split_at_checked(i)` -/
+def split_at_checked {ι} [ToOff ι] (s : Str) (i : ι) : Option (Str × Str) :=
+  match takeBytes s.chars (ToOff.toOff i), dropBytes s.chars (ToOff.toOff i) with
+  | some a, some b => some (⟨a⟩, ⟨b⟩)
+  | _, _ => none
 def join (l : List Str) (sep : Str) : Str := ⟨List.intercalate sep.chars (l.map Str.chars)⟩
 
 end Str
